@@ -28,7 +28,7 @@ import (
 
 // POp is one scheduler step.
 type POp struct {
-	K     string `json:"k"`               // w | run | pump | tick | crash | restart | part | heal | flush | read | sync
+	K     string `json:"k"`               // w | run | pump | tick | crash | restart | part | heal | flush | read | hold | xfer | aresume
 	ID    int    `json:"id,omitempty"`    // w: write id
 	Rows  []SRow `json:"rows,omitempty"`  // w
 	Async bool   `json:"async,omitempty"` // w: leave the call in flight
@@ -44,6 +44,7 @@ type POp struct {
 	Tight bool   `json:"tight,omitempty"` // w (synchronous): deliveries stop at the instant the client has its answer
 	Until string `json:"until,omitempty"` // tick: stop when a vote request is queued (vote; vote2: one of another node) / pump: stop when a granted vote was delivered (voteresp)
 	Only  string `json:"only,omitempty"`  // pump: vote = only links whose next message is a vote request or response
+	All   bool   `json:"all,omitempty"`   // aresume: nothing of the rest of the commit batch parks
 }
 
 type PCase struct {
@@ -66,6 +67,10 @@ type PCase struct {
 	// case); "" = at or after its last send, delivered or not (the rule of replay files recorded before, kept for them)
 	Cut string `json:"cut,omitempty"`
 	Ops     []POp  `json:"ops"`
+	// scheduling points inside the apply path (p_yield.go): 0 / absent = off; n: the apply loop of a node parks between two
+	// entries of one commit batch (1: before every entry but the first; n > 1: at one in n arrivals, seeded)
+	ApplyYield int `json:"apply_yield,omitempty"`
+	ApplyHold  int `json:"apply_hold,omitempty"` // a parked apply loop is resumed after this many steps at the latest (0: seeded, 2..4)
 }
 
 type worldP struct{}
@@ -150,6 +155,11 @@ func (worldP) Simplify(c PCase) []PCase {
 	if c.Yield {
 		n := pwCloneCase(c)
 		n.Yield = false
+		out = append(out, n)
+	}
+	if c.ApplyYield > 0 {
+		n := pwCloneCase(c)
+		n.ApplyYield, n.ApplyHold = 0, 0
 		out = append(out, n)
 	}
 	if c.SGSplit && !c.MetaLag {
@@ -273,6 +283,13 @@ func pwGenRows(r *core.Rand, c *PCase, written *[]SRow) []SRow {
 }
 
 func (worldP) Gen(r *core.Rand, env *core.Env) PCase {
+	c := pwGenCase(r, env)
+	// drawn last: the rest of a case is what its seed produced before the knob existed
+	pwGenApplyYield(r, env, &c)
+	return c
+}
+
+func pwGenCase(r *core.Rand, env *core.Env) PCase {
 	c := PCase{Prop: env.Property, Knobs: genKnobs(r), Second: -1, Cut: "observed"}
 	c.Knobs.ReplayParallel = false
 	if c.Knobs.Partitions > 4 {
@@ -296,9 +313,11 @@ func (worldP) Gen(r *core.Rand, env *core.Env) PCase {
 	if dev != "" {
 		f = 0
 	}
-	if f < 25 {
+	if f < 33 {
 		flav := "ack_kill"
 		switch {
+		case f >= 25:
+			flav = "flush_mid_batch"
 		case f >= 19:
 			flav = "send_kill_storm"
 		case f >= 14:
@@ -473,6 +492,9 @@ func (r *pwRun) known(v *core.Violation) string {
 		}
 	}
 	id := pwAskKnown(v)
+	if r.dbg {
+		fmt.Printf("KNOWN? kind=%s attrs=%v -> %q\n", v.Kind, v.Attrs, id)
+	}
 	if id != "" {
 		r.out.Stats["violations_stepped_over"]++
 	}
@@ -514,6 +536,8 @@ type pwRun struct {
 	unapplied bool // some acknowledged write had not been applied (listed finding stepped over)
 	flushCut bool // some crash so far cut the journal inside a memtable flush
 	heldNode int  // node whose links were slowed down last (-1: none)
+	ay       *pwApplyYield // scheduling points inside the apply path (nil: off)
+	yieldedNode int        // node whose apply loop parked last (-1: none)
 	pumpStop func() bool
 	headFilter func(m *pwMsg) bool
 	cand, voter, grants int
@@ -541,13 +565,20 @@ func (r *pwRun) exec() {
 	r.faults = map[string]bool{}
 	r.window = map[string]bool{}
 	r.downNode, r.cutNode, r.leaderHint, r.heldNode = -1, -1, -1, -1
-	r.cand, r.voter = -1, -1
+	r.cand, r.voter, r.yieldedNode = -1, -1, -1
 	pwSeedRaft(c.Seed)
 	pwFreshGlobals()
 	r.phase = "bootstrap"
 	r.c = pwNewCluster(r.env, out, c.Knobs, c.NMst, time.Duration(c.SyncMs)*time.Millisecond, c.SGSplit)
 	r.c.lag = c.MetaLag
 	r.c.yield = c.Yield
+	if c.ApplyYield > 0 {
+		r.ay = pwNewApplyYield(c, &r.opi)
+		r.c.ay = r.ay
+		r.ay.install()
+		defer r.foldApplyStats()
+		out.Stats["cases_with_apply_yields"]++
+	}
 	if c.Flav != "" {
 		out.Stats["cases_flavour_"+c.Flav]++
 	}
@@ -563,6 +594,9 @@ func (r *pwRun) exec() {
 	r.c.syncAllMeta()
 	r.wait()
 	hd := []string{fmt.Sprintf("knobs=%+v nm=%d ns=%d drop=%d dup=%d reo=%d sync=%d lag=%v", c.Knobs, c.NMst, c.NSeries, c.Drop, c.Dup, c.Reorder, c.SyncMs, c.MetaLag)}
+	if c.ApplyYield > 0 {
+		hd[0] += fmt.Sprintf(" ay=%d/%d", c.ApplyYield, c.ApplyHold)
+	}
 	// initial election: the cluster is started and left alone until a leader exists
 	if v := r.runFor(12*time.Second, core.NewRand(c.Seed^0x9e37), false); v != nil {
 		v.Attrs = mergeAttrsS(v.Attrs, r.runAttrs())
@@ -603,6 +637,9 @@ var pwEpoch = time.Date(2000, 1, 1, 0, 0, 0, 0, time.UTC)
 func pwOpDigest(op POp) string {
 	var b strings.Builder
 	fmt.Fprintf(&b, "%s %d %v %d %d %s %d %v %v %v %v %v %s %s:", op.K, op.ID, op.Async, op.Ms, op.N, op.Sel, op.Back, op.Torn, op.OneW, op.Pause, op.Early, op.Tight, op.Until, op.Only)
+	if op.All {
+		b.WriteString("all:")
+	}
 	for _, r := range op.Rows {
 		fmt.Fprintf(&b, "%d.%d.%d.%d,", r.M, r.S, r.T, r.F)
 	}
@@ -627,6 +664,12 @@ func (r *pwRun) shutdown() {
 		return
 	}
 	r.phase = "shutdown"
+	if r.ay != nil {
+		// parked apply loops end with their nodes (kill closes n.dead)
+		r.ay.mu.Lock()
+		r.ay.off = true
+		r.ay.mu.Unlock()
+	}
 	func() {
 		defer func() { _ = recover() }()
 		for _, n := range r.c.nodes {
